@@ -456,10 +456,31 @@ func (d *diskState) clearPath(root, rel string) {
 	rmAll(filepath.Join(root, rel))
 }
 
+// parentsAreDirs reports whether every proper prefix of rel is a real
+// directory (the user never acts through a symbolic link itself).
+func parentsAreDirs(root, rel string) bool {
+	cur := root
+	comps := strings.Split(rel, "/")
+	for _, c := range comps[:len(comps)-1] {
+		cur = filepath.Join(cur, c)
+		if st, err := os.Lstat(cur); err != nil || !st.IsDir() {
+			return false
+		}
+	}
+	st, err := os.Lstat(root)
+	return err == nil && st.IsDir()
+}
+
 func (d *diskState) userOp(op simkit.Op) {
 	side, rel := op.Str(0), op.Str(1)
 	root := d.roots[side]
 	abs := filepath.Join(root, rel)
+	switch op.Kind {
+	case "edit", "del", "chmod":
+		if rel != "" && !parentsAreDirs(root, rel) {
+			return
+		}
+	}
 	switch op.Kind {
 	case "put":
 		d.clearPath(root, rel)
@@ -519,7 +540,7 @@ func (d *diskState) userOp(op simkit.Op) {
 		d.clearPath(root, rel)
 		os.Symlink(d.canary, abs)
 	}
-	if parent := filepath.Dir(abs); parent != root && strings.HasPrefix(parent, root) {
+	if parent := filepath.Dir(abs); parent != root && strings.HasPrefix(parent, root) && rel != "" && parentsAreDirs(root, rel) {
 		d.touch(parent)
 	}
 	d.recordEdit(side, rel)
@@ -643,6 +664,7 @@ func (e *diskEndpoint) Scan(ctx context.Context, ancestor *core.Entry, full bool
 		return snap, err, again
 	}
 	h.s.Count("probe.disk_scans", 1)
+	d.checkCanary("after " + e.side + " scan")
 	// C12 as an invariant: when the user did nothing on this side while the
 	// scan ran, the snapshot equals the independent walker.
 	h.mu.Lock()
@@ -711,6 +733,7 @@ func (e *diskEndpoint) Supply(paths []string, signatures []*rsync.Signature, rec
 	h.enter(e.side, "supply")
 	defer h.leave(e.side)
 	err := e.inner.Supply(paths, signatures, receiver)
+	h.disk.checkCanary("after " + e.side + " supply")
 	h.s.Logf("ctl."+e.side, "supply %d paths -> %v", len(paths), err)
 	return err
 }
@@ -735,6 +758,7 @@ func (e *diskEndpoint) Transition(ctx context.Context, transitions []*core.Chang
 	d.mu.Lock()
 	d.transStart[e.side] = 0
 	d.mu.Unlock()
+	d.checkCanary("after " + e.side + " transition")
 	h.s.Count("probe.disk_transitions", 1)
 	if err != nil {
 		h.mu.Lock()
